@@ -1,6 +1,6 @@
 (* Bridge to slice RES (Model/Resolver.v): the loaded configuration satisfies the two hypotheses of the resolver's
    no-panic / totality theorems (`root_present`, `names_valid`, stated here in raw form) and, after FX7, the
-   uniqueness hypothesis of C19; the name listing of the two models is the same function. *)
+   uniqueness hypothesis of C19 and `only_root_unnamed`; the name listing of the two models is the same function. *)
 From Zinoma.Model Require Import Config Resolver.
 From Zinoma.Proofs Require Import Bytes ConfigLoad ConfigMain.
 
@@ -22,13 +22,20 @@ Theorem loaded_resolver_preconditions fs canon root ord U fuel c ic :
   (forall pn dir pr, In (pn, (dir, pr)) (ic_projects ic) ->
      (forall p, pn = Some p -> valid_name p = true) /\
      (forall n yt, In (n, yt) (yp_targets pr) -> valid_name n = true)) /\
-  NoDup (map fst (ic_projects ic)).
+  NoDup (map fst (ic_projects ic)) /\
+  (forall dp, In (None, dp) (ic_projects ic) -> ic_root_name ic = None).
 Proof.
   intros Hord HU Hc Hic. destruct (load_ok fs canon root ord Hord U HU fuel c Hc) as (Hr & Hs & Hni).
-  destruct c as [r vis]. cbn [yc_root yc_projects] in Hr, Hs. subst r. split; [|split].
+  destruct c as [r vis]. cbn [yc_root yc_projects] in Hr, Hs. subst r. split; [|split; [|split]].
   - unfold lookup_project. rewrite <- ir_lookup_assoc. exact (ir_root_present fs canon root vis Hs ic Hic).
   - intros pn d pr Hin. destruct (ir_names_valid fs canon root vis Hs ic pn d pr Hic Hin) as [Hp Ht].
     split; [|exact Ht]. intros p ->. exact Hp.
   - destruct (to_ir_inv fs canon root vis Hs ic Hic) as (rp & _ & _ & ->).
     exact (ir_keys_nodup fs canon root vis Hs Hni).
+  - (* only the root can be unnamed: an entry under the key None is the root's, so the root name is None *)
+    intros [d p] Hin. destruct (to_ir_inv fs canon root vis Hs ic Hic) as (rp & Hrp & Hn & Hp). rewrite Hp in Hin.
+    apply (in_ir_entries vis) in Hin as [Hin Hnone]. pose proof Hs as (Hnd & _).
+    pose proof (vis_get_nodup _ _ _ Hnd Hin) as Hd.
+    assert (d = root) by (eapply (loaded_unnamed_is_root fs canon root vis d p Hs); [exact Hd | now symmetry]).
+    subst d. rewrite Hn. congruence.
 Qed.
